@@ -203,6 +203,13 @@ func (x *Exec) doCallEx(st *State, fr *Frame, site ssa.Instruction, cc *ssa.Call
 
 func (x *Exec) callFunction(st *State, fr *Frame, site ssa.Instruction, fn *ssa.Function, args []*Val, binds []*Val, deferOf *Frame, kn func(*State, []*Val), kp func(*State, *Val)) {
 	key := fnKey(fn)
+	// the initialiser of an imported package, called from a package initialiser: it has completed
+	// before this package's variables are initialised, cannot name this package's variables
+	// (imports are acyclic), and a panic in it ends the program before any API call
+	if isPkgInit(fn) && isPkgInit(fr.fn) && fn.Pkg != fr.fn.Pkg {
+		kn(st, nil)
+		return
+	}
 	if bm := lookupBuiltinModel(key); bm != nil {
 		bm(x, st, fr, site, fn, args, kn, kp)
 		return
